@@ -177,6 +177,59 @@ BAD_OBJS = [123, 1.5, (1,), {'a': 1}, Boom('x'), object]      # truthy, not text
 EXC = [ValueError, KeyError, RuntimeError, ZeroDivisionError, Boom, TypeError]
 
 
+class FaultyPath:
+    """stands in for the template path: every way of reading it raises `exc`"""
+
+    def __init__(self, exc):
+        self._exc = exc
+
+    def _fail(self, *a, **kw):
+        raise self._exc
+    open = read_text = read_bytes = _fail
+
+    def __fspath__(self):
+        return '/nonexistent-verif/ombott.pyz/error.html'
+
+    def __str__(self):
+        return self.__fspath__()
+
+
+def template_fault(name):
+    """the object `error_render.html` is replaced with (class: a resource that fails when it is first used)"""
+    import errno
+    import pathlib
+    if name == 'missing':               # zipapp / frozen build: the package directory is no directory
+        return pathlib.Path('/nonexistent-verif/ombott.pyz/ombott/error.html')
+    if name == 'notdir':
+        return pathlib.Path(core.__file__) / 'error.html'
+    if name == 'isdir':
+        return pathlib.Path(core.__file__).parent
+    if name == 'perm':
+        return FaultyPath(PermissionError(errno.EACCES, 'Permission denied'))
+    if name == 'emfile':
+        return FaultyPath(OSError(errno.EMFILE, 'Too many open files'))
+    if name == 'eio':
+        return FaultyPath(OSError(errno.EIO, 'Input/output error'))
+    if name == 'decode':
+        return FaultyPath(UnicodeDecodeError('utf-8', b'\xff', 0, 1, 'invalid start byte'))
+    raise ValueError(name)
+
+
+# (MemoryError is not among them: the framework lets it through to the server on purpose, there is no response to judge)
+TEMPLATE_FAULTS = ['missing', 'notdir', 'isdir', 'perm', 'emfile', 'eio', 'decode']
+# configuration histories that END with debug off (the property speaks about that state): debug on while error
+# responses were rendered (HTML, JSON, both), switched off by setup(); on/off/on/off; off all along with a setup()
+HISTORIES = [
+    dict(debug0=True, steps=[['warm', 'nf', None], ['setup', False]]),
+    dict(debug0=True, steps=[['warm', 'crash', 'text/html'], ['setup', False]]),
+    dict(debug0=True, steps=[['warm', 'crash', 'application/json'], ['warm', 'na', None], ['setup', False]]),
+    dict(debug0=True, steps=[['setup', False]]),
+    dict(debug0=False, steps=[['warm', 'nf', None], ['setup', True], ['warm', 'crash', None], ['setup', False]]),
+    dict(debug0=False, steps=[['setup', True], ['setup', False], ['warm', 'nf', None]]),
+    dict(debug0=False, steps=[['warm', 'crash', None], ['setup', False]]),
+]
+
+
 class Apps:
     """four real `Ombott()` applications: debug off/on x default / failing error handlers"""
 
@@ -210,6 +263,57 @@ class Apps:
 
     def close(self):
         self.om.format_exc = self._old_fe
+
+    def make_app(self, debug, failing):
+        from ombott import Ombott
+        cur = self.cur
+        app = Ombott({'debug': debug})
+        self._routes(app, cur)
+        if failing:
+            def bad_handler(res):
+                raise RuntimeError(cur.msg2)
+            for code in REG_CODES:
+                app.error(code)(bad_handler)
+        return app
+
+    def warm(self, app, steps):
+        """harmless earlier requests: each `(kind, accept)` renders one error response of the application as configured"""
+        cur = self.cur
+        keep = (cur.cls, cur.msg, cur.msg2, cur.tb, cur.hook, cur.hit)
+        for kind, accept in steps:
+            env = base_env()
+            env.update({'PATH_INFO': {'nf': '/zz/earlier', 'crash': '/crash/earlier', 'na': '/post/earlier'}[kind],
+                        'QUERY_STRING': 'earlier=1', 'SERVER_NAME': 'srv', 'SERVER_PORT': '80', 'wsgi.url_scheme': 'http'})
+            if accept is not None:
+                env['HTTP_ACCEPT'] = accept
+            cur.cls, cur.msg, cur.msg2, cur.tb, cur.hook = ValueError, 'earlier', 'earlier', 'Traceback: earlier', False
+            wsgi_call(app, env)
+        cur.cls, cur.msg, cur.msg2, cur.tb, cur.hook, cur.hit = keep
+
+    def reconfigured(self, debug, failing):
+        """an application whose configuration CHANGED between requests: it ran under the opposite debug mode, rendered
+        error responses (HTML and JSON) there, and was then given its present mode by `setup()`; every call repeats the
+        round trip, so the judged request is always the first one after a `setup()`"""
+        if not hasattr(self, '_reconf'):
+            self._reconf = {}
+        app = self._reconf.get((debug, failing))
+        if app is None:
+            app = self._reconf[(debug, failing)] = self.make_app(not debug, failing)
+        else:
+            app.setup({'debug': not debug})
+        self.warm(app, [('nf', None), ('crash', 'text/html'), ('crash', 'application/json')])
+        app.setup({'debug': debug})
+        return app
+
+    def history_app(self, hist, failing):
+        """a fresh application taken through `hist` = dict(debug0, steps=[['warm', kind, accept] | ['setup', debug]])"""
+        app = self.make_app(hist['debug0'], failing)
+        for st in hist['steps']:
+            if st[0] == 'warm':
+                self.warm(app, [(st[1], st[2])])
+            else:
+                app.setup({'debug': st[1]})
+        return app
 
     def _routes(self, app, cur):
         om, rerr = self.om, self.rerr
@@ -432,7 +536,10 @@ class C20(Check):
             'render, Request.fullpath, Request.url; a size axis in both streams (request texts and unit inputs at '
             '250/1000/1024+-2/2048/4096/8192/65536 characters measured on the field, the URL, the escaped URL and the '
             'body; padding before/after/around payloads, repeated payloads, payloads straddling each threshold), '
-            'request methods and unusual Host / X-Forwarded-* / Accept combinations, cold template cache; non-trivial = input contains one of < > " \' & { }')
+            'request methods and unusual Host / X-Forwarded-* / Accept combinations, cold template cache; applications whose '
+            'configuration CHANGED between requests (ran and rendered HTML / JSON errors under the other debug mode, then setup(); '
+            'on-off-on-off histories) in both streams - the model is given the mode in force; the template unreadable when first '
+            'needed or after one use (missing / not a directory / a directory / EACCES / EMFILE / EIO / undecodable) in the oracle; non-trivial = input contains one of < > " \' & { }')
     assumptions = ['urljoin is modelled except for the validation of an authority part (//host: IPv6 brackets, NFKC): '
                    'there its live result is shipped to the model; elsewhere a sentinel is shipped instead',
                    'default app_name_header / no domain_map; X-Script-Name not consulted (allow_x_script_name off)',
@@ -757,6 +864,7 @@ class C20(Check):
                                       'text/html,application/xhtml+xml,application/xml;q=0.9,*/*;q=0.8', 'application/',
                                       'application/json\t', 'application/json-patch+json', 'application/jso'])
         c['cold'] = rng.random() < .03      # the renderer's line cache is empty for this request
+        c['reconf'] = rng.random() < .15    # the application ran (and rendered errors) under the other debug mode until a setup()
         c['cls'] = rng.choice(EXC).__name__
         c['msg'] = gen_text(rng, 5)
         c['msg2'] = gen_text(rng, 4)
@@ -779,6 +887,12 @@ class C20(Check):
         c['raw'] = raw.hex()
         if kind == 'reqerr':
             c['cls'] = rng.choice(['RequestError', 'BodyParsingError', 'BodySizeError', 'Custom'])
+        # the template cannot be read when this request needs it (cold cache): for the model that is the default error
+        # handler failing with that exception, i.e. the last-resort page.  Only where the HTML page is what gets rendered.
+        if (kind in ('nf', 'na', 'crash', 'hook', 'badpath', 'reqerr', 'json', 'big', 'gen', 'badtype') and not c['failing']
+                and rng.random() < .07):
+            c['accept'] = rng.choice([None, '', 'text/html', '*/*', 'text/plain'])
+            c['tfault'] = rng.choice(TEMPLATE_FAULTS)
         return c
 
     # which request-derived texts a response shows (its "holes"), per kind of response
@@ -883,7 +997,9 @@ class C20(Check):
     def _serve(self, apps, c, count=True):
         """run one case on the real application; returns (line, impl answer, sample)"""
         cur = apps.cur
-        app = apps.apps[(c['debug'], c['failing'])]
+        app = apps.reconfigured(c['debug'], c['failing']) if c.get('reconf') else apps.apps[(c['debug'], c['failing'])]
+        if c.get('reconf') and count:
+            self.bump('serve:after-setup')
         kind = c['kind']
         raw = bytes.fromhex(c['raw'])
         method = 'HEAD' if c['head'] else c['method']
@@ -919,7 +1035,26 @@ class C20(Check):
         e2['PATH_INFO'] = path
         fp, fp_exc = fullpath_of(e2, app.config)
         fp = lib_param(e2, fp)
-        status, ctype, body = wsgi_call(app, env)
+        texc = None
+        # (eligibility re-tested here: the sized cases rewrite kind / Accept after the case was drawn)
+        if (c.get('tfault') and not c['failing'] and c['accept'] in (None, '', 'text/html', '*/*', 'text/plain')
+                and kind in ('nf', 'na', 'crash', 'hook', 'badpath', 'reqerr', 'json', 'big', 'gen', 'badtype')):
+            er = apps.error_render
+            er._html_lns[:] = []
+            old_html, er.html = er.html, template_fault(c['tfault'])
+            try:
+                er.html.open('r')
+            except Exception as e:      # noqa: the exception the renderer will meet
+                texc = e
+            try:
+                status, ctype, body = wsgi_call(app, env)
+            finally:
+                er.html = old_html
+                er._html_lns[:] = []
+            if count:
+                self.bump('serve:template-unreadable:' + c['tfault'])
+        else:
+            status, ctype, body = wsgi_call(app, env)
         # what routing / the handler did (observed; a parameter of the model)
         hit = cur.hit
         if not decodable:
@@ -948,6 +1083,8 @@ class C20(Check):
             oc = 'nf'
         hfail = c['failing'] and not (hit == 'abort' and c['code'] not in REG_CODES)
         d1 = repr(RuntimeError(c['msg2'])) if hfail else (repr(fp_exc) if fp_exc is not None else '')
+        if texc is not None and not hfail and fp_exc is None:
+            hfail, d1 = True, repr(texc)
         # `wsgi` drops the body for REQUEST_METHOD == 'HEAD' exactly (routing upper-cases, this test does not)
         line = (f'errorpage serve {int(c["debug"])} {int(method == "HEAD")} {hb(raw)} {o(c["accept"])} '
                 f'{urlenv_args(c["env"], fp)} {oc} {int(hfail)} {hs(d1)} {hs(c["tb"])}')
@@ -1024,9 +1161,33 @@ class C20(Check):
         cur.cls, cur.msg, cur.msg2, cur.tb = ValueError, leak, 'handler failed: ' + leak, 'Traceback: ' + leak
         if kind == 'reqerr':
             cur.cls = apps.req_classes['BodyParsingError']
+        if c.get('history'):            # the configuration changed between requests; it is debug OFF now
+            app = apps.history_app(c['history'], kind == 'critical')
+            leak = c.get('leak') or 'boom'
+            cur.cls, cur.msg, cur.msg2, cur.tb = ValueError, leak, 'handler failed: ' + leak, 'Traceback: ' + leak
+            if kind == 'reqerr':
+                cur.cls = apps.req_classes['BodyParsingError']
         cur.hook = kind == 'hook'
         cur.hit = None
-        return wsgi_call(app, env)
+        if not c.get('fault'):
+            return wsgi_call(app, env)
+        # the template cannot be read when it is first needed (fault 'x'), or only after it was read once ('x:warm')
+        er = apps.error_render
+        name, _, when = c['fault'].partition(':')
+        if when == 'warm':
+            apps.warm(app, [('nf', None)])
+        else:
+            er._html_lns[:] = []
+        for attr in list(vars(app)):         # whatever the application keeps of an earlier rendering
+            if 'error_page' in attr or 'template' in attr:
+                vars(app).pop(attr, None)
+        old_html = er.html
+        er.html = template_fault(name)
+        try:
+            return wsgi_call(app, env)
+        finally:
+            er.html = old_html
+            er._html_lns[:] = []
 
     TAINT_FIELDS = ['qs', 'host', 'fhost', 'fproto', 'path', 'leak']
     TAINT_KINDS = ['nf', 'na', 'crash', 'hook', 'badpath', 'json', 'big', 'reqerr', 'critical', 'ipv6', 'gen']
@@ -1199,6 +1360,35 @@ class C20(Check):
                     c = self._taint_case(rng, i)
                     c['kind'], c['accept'] = k, acc
                     cases.append(c)
+            # the configuration changed by setup() between requests (debug is OFF when the judged request arrives)
+            j = 0
+            for k in kinds:
+                for hist in HISTORIES:
+                    for acc in (None, 'text/html', 'application/json'):
+                        j += 1
+                        if n < 5000 and j % 2 and acc is not None:
+                            continue
+                        c = self._taint_case(rng, 300 + j)
+                        c['kind'], c['accept'], c['history'] = k, acc, hist
+                        cases.append(c)
+            # the template unreadable when it is first needed (and, as a control, after it was read once)
+            for k in kinds:
+                for fault in TEMPLATE_FAULTS:
+                    for when in ('', ':warm'):
+                        j += 1
+                        if when and (n < 5000 and j % 3):
+                            continue
+                        c = self._taint_case(rng, 300 + j)
+                        c['kind'], c['fault'] = k, fault + when
+                        c['accept'] = rng.choice([None, 'text/html', '*/*', 'text/plain', 'application/json'])
+                        cases.append(c)
+            for i in range(n // 12):            # both axes at random
+                c = self._taint_case(rng, i + 2000)
+                if rng.random() < .6:
+                    c['history'] = rng.choice(HISTORIES)
+                if 'history' not in c or rng.random() < .3:
+                    c['fault'] = rng.choice(TEMPLATE_FAULTS) + rng.choice(['', '', ':warm'])
+                cases.append(c)
             for i in range(n // 3):
                 cases.append(self._taint_case(rng, i + 100))
             # the size axis: same grid as the correspondence (sampled in the quick tier)
@@ -1227,7 +1417,8 @@ class C20(Check):
                 except Exception as e:
                     bad = ('exception', f'{type(e).__name__}: {e}')
                 if bad:
-                    findings.append(Finding('C20:' + bad[0], bad[1], c))
+                    site = bad[0] + (':after-setup' if c.get('history') else '') + (':template-unreadable' if c.get('fault') else '')
+                    findings.append(Finding('C20:' + site, bad[1], c))
         finally:
             apps.close()
             error_render._html_lns[:] = []
